@@ -106,6 +106,7 @@ func playScript(t failer, c scriptCase) (labels []string, inconclusive string) {
 	if err != nil {
 		return nil, "cannot start victim: " + err.Error()
 	}
+	defer func() { r.release() }()
 	touched := map[string]bool{}
 	for _, it := range c.Items {
 		if it.Hex == "" && it.Note == "unserializable" {
@@ -159,6 +160,7 @@ func playScript(t failer, c scriptCase) (labels []string, inconclusive string) {
 				if !r2.sentinel(tg) {
 					repro++
 				}
+				r.release()
 				v, r = v2, r2
 				if !v.alive() {
 					t.Fatalf("the process hosting the listeners terminated while reproducing a hang: %s\n%s", describe(), v.stderrTail())
